@@ -4,6 +4,9 @@
 // the state's entries; the answer is compared with the same operation on the underlying in-memory bucket and the cache
 // content afterwards is the successor state. Environment transitions evict any single entry (a cache that loses entries),
 // so the search reaches every subset of every reachable cache content. The search runs to closure for each configuration.
+// The readers handed out by the underlying bucket (Get, GetRange) are a dimension of every transition that opens one: the
+// same bytes are delivered in every legal io.Reader manner (all at once or in pieces, io.EOF on its own or together with the
+// last bytes, (0, nil) reads in between).
 package c14
 
 import (
@@ -12,9 +15,11 @@ import (
 	"fmt"
 	"io"
 	"iter"
+	"runtime"
 	"sort"
 	"strings"
 	"sync"
+	"sync/atomic"
 	"testing"
 	"time"
 
@@ -36,6 +41,8 @@ type Op struct {
 	Partial bool   `json:"partial,omitempty"` // Get: read one byte, then Close
 	Rec     bool   `json:"rec,omitempty"`     // Iter: recursive
 	Dir     string `json:"dir,omitempty"`
+	// Rd: how the readers of the underlying bucket deliver their bytes during this operation (see shapes).
+	Rd string `json:"rd,omitempty"`
 }
 
 type Case struct {
@@ -141,6 +148,105 @@ func newUnderlying(c Case) (*objstore.InMemBucket, error) {
 	return b, b.Upload(context.Background(), otherName, bytes.NewReader([]byte("x")))
 }
 
+// ---- read behaviour of the underlying bucket's readers ---------------------------------------------------------------
+
+// A shape is one legal way (io.Reader contract) in which a reader delivers a fixed byte string.
+type shape struct {
+	piece   int  // bytes per Read: 0 = as many as fit into p, 1 = one, 2 = half of len(p) rounded up (testing/iotest.HalfReader)
+	eofData bool // io.EOF is returned by the Read that delivers the last bytes (testing/iotest.DataErrReader), not by an extra Read
+	stutter bool // every other Read returns (0, nil): "nothing happened", legal although discouraged
+}
+
+// "" is the reader of objstore.InMemBucket itself (bytes.Reader: everything that fits, then (0, io.EOF)).
+var shapes = map[string]shape{
+	"all+eof":      {piece: 0, eofData: true},
+	"1":            {piece: 1},
+	"1+eof":        {piece: 1, eofData: true},
+	"half":         {piece: 2},
+	"half+eof":     {piece: 2, eofData: true},
+	"stutter":      {piece: 0, stutter: true},
+	"stutter1+eof": {piece: 1, eofData: true, stutter: true},
+}
+
+func shapeNames(thorough bool) []string {
+	if thorough {
+		return []string{"all+eof", "1", "1+eof", "half", "half+eof", "stutter", "stutter1+eof"}
+	}
+	return []string{"all+eof", "1", "1+eof", "half"}
+}
+
+type shapedReader struct {
+	data    []byte
+	pos     int
+	sh      shape
+	idle    bool // the previous Read returned (0, nil)
+	dataEOF *atomic.Int64
+	closer  io.Closer
+}
+
+func (s *shapedReader) Read(p []byte) (int, error) {
+	if len(p) == 0 {
+		return 0, nil
+	}
+	if s.sh.stutter {
+		if s.idle = !s.idle; s.idle {
+			return 0, nil
+		}
+	}
+	if s.pos >= len(s.data) {
+		return 0, io.EOF
+	}
+	n := len(p)
+	switch s.sh.piece {
+	case 1:
+		n = 1
+	case 2:
+		n = (len(p) + 1) / 2
+	}
+	n = copy(p[:n], s.data[s.pos:])
+	s.pos += n
+	if s.sh.eofData && s.pos == len(s.data) {
+		s.dataEOF.Add(1)
+		return n, io.EOF
+	}
+	return n, nil
+}
+func (s *shapedReader) Close() error { return s.closer.Close() }
+
+// shapedBucket is the underlying bucket as the caching bucket sees it: the in-memory bucket whose readers deliver their
+// (unchanged) bytes in the manner selected by rd. It counts the readers it hands out.
+type shapedBucket struct {
+	objstore.Bucket
+	rd      string
+	opened  atomic.Int64
+	dataEOF atomic.Int64 // Reads that returned n > 0 together with io.EOF
+}
+
+func (b *shapedBucket) wrap(rc io.ReadCloser, err error) (io.ReadCloser, error) {
+	if err != nil {
+		return rc, err
+	}
+	b.opened.Add(1)
+	if b.rd == "" {
+		return rc, nil
+	}
+	sh, ok := shapes[b.rd]
+	if !ok {
+		panic("HARNESS-ERROR unknown read behaviour " + b.rd)
+	}
+	data, rerr := io.ReadAll(rc)
+	if rerr != nil {
+		panic("HARNESS-ERROR in-memory reader failed: " + rerr.Error())
+	}
+	return &shapedReader{data: data, sh: sh, dataEOF: &b.dataEOF, closer: rc}, nil
+}
+func (b *shapedBucket) Get(ctx context.Context, name string) (io.ReadCloser, error) {
+	return b.wrap(b.Bucket.Get(ctx, name))
+}
+func (b *shapedBucket) GetRange(ctx context.Context, name string, off, length int64) (io.ReadCloser, error) {
+	return b.wrap(b.Bucket.GetRange(ctx, name, off, length))
+}
+
 func newCaching(c Case, under objstore.Bucket, mc cache.Cache) (*storecache.CachingBucket, error) {
 	all := func(string) bool { return true }
 	cfg := cache.NewCachingBucketConfig()
@@ -156,7 +262,10 @@ func newCaching(c Case, under objstore.Bucket, mc cache.Cache) (*storecache.Cach
 func readAll(r io.Reader, buf int) ([]byte, error) {
 	var out []byte
 	p := make([]byte, buf)
-	for {
+	for reads := 0; ; reads++ {
+		if reads > 5000 {
+			return out, fmt.Errorf("reader does not terminate")
+		}
 		n, err := r.Read(p)
 		out = append(out, p[:n]...)
 		if err == io.EOF {
@@ -203,7 +312,10 @@ func run(b objstore.Bucket, op Op) (answer string) {
 		}
 		if op.Partial {
 			p := make([]byte, 1)
-			n, _ := rc.Read(p)
+			n, err := rc.Read(p)
+			for reads := 0; n == 0 && err == nil && reads < 5000; reads++ { // (0, nil) means nothing happened
+				n, err = rc.Read(p)
+			}
 			_ = rc.Close()
 			return fmt.Sprintf("first byte %q", p[:n])
 		}
@@ -257,7 +369,7 @@ func ops(c Case, thorough bool) []Op {
 		}
 	}
 	out = append(out,
-		Op{Kind: "GetRange", Off: 0, Len: -1, Buf: 512},  // pass-through forms
+		Op{Kind: "GetRange", Off: 0, Len: -1, Buf: 512}, // pass-through forms
 		Op{Kind: "GetRange", Off: 1, Len: 0, Buf: 512},
 		Op{Kind: "GetRange", Off: -1, Len: 1, Buf: 512},
 		Op{Kind: "GetRange", Missing: true, Off: 0, Len: 1, Buf: 512},
@@ -316,40 +428,58 @@ func classify(op Op, c Case, want, got string) string {
 	return op.Kind + ":answer-differs"
 }
 
+// rig is one worker's private instance of the system under test for a configuration.
+type rig struct {
+	inmem  *objstore.InMemBucket
+	under  *shapedBucket
+	mc     *memCache
+	cb     *storecache.CachingBucket
+	wantOf map[Op]string // the underlying bucket's answer depends neither on the cache nor on the read behaviour
+}
+
+// All rigs of a configuration share the (read-only) in-memory bucket: its objects carry their upload time as last-modified.
+func newRig(c Case, inmem *objstore.InMemBucket) (*rig, error) {
+	var err error
+	g := &rig{inmem: inmem, under: &shapedBucket{Bucket: inmem}, mc: newMemCache(nil), wantOf: map[Op]string{}}
+	// the CachingBucket keeps no state of its own besides metrics: one instance per worker and configuration
+	g.cb, err = newCaching(c, g.under, g.mc)
+	return g, err
+}
+
+// step runs op (with the read behaviour op.Rd) on a cache holding exactly st. opened = number of readers the caching bucket
+// obtained from the underlying bucket.
+func (g *rig) step(st map[string]string, op Op) (next map[string]string, want, got string, opened int64) {
+	g.mc.reset(st)
+	g.under.rd = op.Rd
+	g.under.opened.Store(0)
+	got = run(g.cb, op)
+	plain := op
+	plain.Rd = ""
+	want, ok := g.wantOf[plain]
+	if !ok {
+		want = run(g.inmem, plain)
+		g.wantOf[plain] = want
+	}
+	return g.mc.snapshot(), want, got, g.under.opened.Load()
+}
+
 func TestCheck(t *testing.T) {
 	r := vlib.New(t, "C14")
 	defer r.Finish()
 	r.Rule("per configuration (object size, subrange size, MaxSubRequests, MaxCacheableSize): BFS to closure over cache contents; operations = GetRange(off 0..roundup(size,ss)+ss, " +
 		"len 1..size+2, read buffer 1|512) + pass-through GetRange forms + Get (full with buffer 1|512, partial) + Exists + Attributes on the existing and a missing object + " +
-		"Iter (root, root recursive; thorough also a directory); environment = evict any one entry; non-trivial = distinct (configuration, state) with at least one but not all sub-ranges " +
-		"of the object cached (partial hits); states/transitions/traces are counted by the search")
-	r.Assume("Objects never change; the underlying bucket is objstore.InMemBucket; one cache instance serves all operation configs (as SetCacheImplementation does); TTLs are 24h and the "+
+		"Iter (root, root recursive; thorough also a directory); every transition in which the caching bucket opens a reader of the underlying bucket is executed once per read " +
+		"behaviour of those readers (bytes.Reader as is; all at once with io.EOF in the same Read; one byte per Read with a separate / with an attached io.EOF; half the buffer per Read; " +
+		"thorough also half+attached EOF and (0,nil) reads in between); environment = evict any one entry; non-trivial = distinct (configuration, state) with at least one but not all " +
+		"sub-ranges of the object cached (partial hits); states/transitions/traces are counted by the search")
+	r.Assume("Objects never change; the underlying bucket is objstore.InMemBucket behind a wrapper that only changes HOW its readers deliver the same bytes (piece sizes, position of io.EOF, "+
+		"(0,nil) reads - all legal per the io.Reader contract); one cache instance serves all operation configs (as SetCacheImplementation does); TTLs are 24h and the "+
 		"harness cache ignores them (loss of entries is modelled by the eviction transitions).",
-		"An answer is: error class (nil / object-not-found per the bucket's own IsObjNotFoundErr / other), the bytes read until EOF, the boolean, (size, last-modified), or the listing.")
+		"An answer is: error class (nil / object-not-found per the bucket's own IsObjNotFoundErr / other), the bytes read until EOF, the boolean, (size, last-modified), or the listing.",
+		"A transition during which the caching bucket opens no reader of the underlying bucket cannot depend on the read behaviour; it is executed once (the caching bucket is deterministic "+
+			"up to the order in which its parallel sub-requests finish).")
 
 	vlib.ForEach(r, gen(r), func(c Case) {
-		under, err := newUnderlying(c)
-		if err != nil {
-			t.Errorf("HARNESS-ERROR %v", err)
-			return
-		}
-		mc := newMemCache(nil)
-		cb, err := newCaching(c, under, mc) // the CachingBucket keeps no state of its own besides metrics: one instance per configuration
-		if err != nil {
-			t.Errorf("HARNESS-ERROR %v", err)
-			return
-		}
-		wantOf := map[Op]string{} // the underlying bucket's answer does not depend on the cache
-		step := func(st map[string]string, op Op) (map[string]string, string, string) {
-			mc.reset(st)
-			got := run(cb, op)
-			want, ok := wantOf[op]
-			if !ok {
-				want = run(under, op)
-				wantOf[op] = want
-			}
-			return mc.snapshot(), want, got
-		}
 		check := func(st map[string]string, op Op, want, got string) {
 			if want == got {
 				return
@@ -359,11 +489,25 @@ func TestCheck(t *testing.T) {
 			if vc.State == nil {
 				vc.State = map[string]string{}
 			}
-			r.Violation(classify(op, c, want, got), fmt.Sprintf("object size %d, subrange size %d, MaxSubRequests %d, MaxCacheableSize %d, cache content {%s}: %+v answered %s, the underlying bucket answers %s",
-				c.Size, c.SS, c.MaxSub, c.MaxGet, stateKey(st), op, got, want), vc)
+			rd := op.Rd
+			if rd == "" {
+				rd = "bytes.Reader"
+			}
+			r.Violation(classify(op, c, want, got), fmt.Sprintf("object size %d, subrange size %d, MaxSubRequests %d, MaxCacheableSize %d, cache content {%s}, underlying readers deliver %q: %+v answered %s, the underlying bucket answers %s",
+				c.Size, c.SS, c.MaxSub, c.MaxGet, stateKey(st), rd, op, got, want), vc)
+		}
+		inmem, err := newUnderlying(c)
+		if err != nil {
+			t.Errorf("HARNESS-ERROR %v", err)
+			return
 		}
 		if c.Op != nil { // replay of one transition
-			_, want, got := step(c.State, *c.Op)
+			g, err := newRig(c, inmem)
+			if err != nil {
+				t.Errorf("HARNESS-ERROR %v", err)
+				return
+			}
+			_, want, got, _ := g.step(c.State, *c.Op)
 			r.AddTransitions(1)
 			r.AddTraces(1)
 			check(c.State, *c.Op, want, got)
@@ -371,30 +515,28 @@ func TestCheck(t *testing.T) {
 		}
 		r.Sample(c)
 		all := ops(c, r.Thorough())
+		rds := shapeNames(r.Thorough())
 		nsub := (c.Size + c.SS - 1) / c.SS
 		type node struct {
-			st    map[string]string
-			depth int
+			key string
+			st  map[string]string
 		}
+		var mu sync.Mutex // seen, next
 		seen := map[string]struct{}{stateKey(nil): {}}
-		queue := []node{{st: map[string]string{}, depth: 0}}
-		var states, trans, traces int64 = 1, 0, 0
-		push := func(st map[string]string, d int) {
+		frontier := []node{{key: stateKey(nil), st: map[string]string{}}}
+		var next []node
+		var states, trans, traces, shaped, indep, dataEOF atomic.Int64
+		states.Store(1)
+		push := func(st map[string]string) {
 			k := stateKey(st)
-			if _, ok := seen[k]; ok {
-				return
+			mu.Lock()
+			if _, ok := seen[k]; !ok {
+				seen[k] = struct{}{}
+				next = append(next, node{k, st})
 			}
-			seen[k] = struct{}{}
-			states++
-			queue = append(queue, node{st, d})
-			r.Depth(d)
+			mu.Unlock()
 		}
-		for len(queue) > 0 {
-			n := queue[0]
-			queue = queue[1:]
-			if r.Expired("BFS of a configuration cut short") {
-				break
-			}
+		expand := func(g *rig, n node) {
 			cached := 0
 			for k := range n.st {
 				if strings.HasPrefix(k, "subrange:") {
@@ -402,28 +544,93 @@ func TestCheck(t *testing.T) {
 				}
 			}
 			if cached > 0 && cached < nsub {
-				r.Nontrivial(fmt.Sprint(c.Size, c.SS, c.MaxSub, c.MaxGet, stateKey(n.st)))
+				r.Nontrivial(fmt.Sprint(c.Size, c.SS, c.MaxSub, c.MaxGet, n.key))
 			}
 			for _, op := range all {
-				next, want, got := step(n.st, op)
-				trans++
-				traces++
+				nx, want, got, opened := g.step(n.st, op)
+				trans.Add(1)
+				traces.Add(1)
 				check(n.st, op, want, got)
-				push(next, n.depth+1)
+				push(nx)
+				if opened == 0 {
+					indep.Add(1)
+					continue
+				}
+				for _, rd := range rds {
+					op.Rd = rd
+					nx, want, got, _ := g.step(n.st, op)
+					trans.Add(1)
+					traces.Add(1)
+					shaped.Add(1)
+					check(n.st, op, want, got)
+					push(nx)
+				}
 			}
 			for k := range n.st { // the cache loses one entry
-				next := make(map[string]string, len(n.st)-1)
+				nx := make(map[string]string, len(n.st)-1)
 				for k2, v := range n.st {
 					if k2 != k {
-						next[k2] = v
+						nx[k2] = v
 					}
 				}
-				trans++
-				push(next, n.depth+1)
+				trans.Add(1)
+				push(nx)
 			}
 		}
-		r.AddStates(states)
-		r.AddTransitions(trans)
-		r.AddTraces(traces)
+		// level-synchronous BFS; the nodes of a level are expanded by all workers, each on its own instance of the system
+		workers := runtime.GOMAXPROCS(0)
+		rigs := make([]*rig, workers)
+		for depth := 1; len(frontier) > 0; depth++ {
+			var idx atomic.Int64
+			var stop atomic.Bool
+			var wg sync.WaitGroup
+			for w := 0; w < min(workers, len(frontier)); w++ {
+				wg.Add(1)
+				go func() {
+					defer wg.Done()
+					if rigs[w] == nil {
+						g, err := newRig(c, inmem)
+						if err != nil {
+							t.Errorf("HARNESS-ERROR %v", err)
+							stop.Store(true)
+							return
+						}
+						rigs[w] = g
+					}
+					for !stop.Load() {
+						i := int(idx.Add(1)) - 1
+						if i >= len(frontier) {
+							return
+						}
+						if r.Expired("BFS of a configuration cut short") {
+							stop.Store(true)
+							return
+						}
+						expand(rigs[w], frontier[i])
+					}
+				}()
+			}
+			wg.Wait()
+			if stop.Load() {
+				break
+			}
+			sort.Slice(next, func(i, j int) bool { return next[i].key < next[j].key })
+			frontier, next = next, nil
+			if len(frontier) > 0 {
+				states.Add(int64(len(frontier)))
+				r.Depth(depth)
+			}
+		}
+		for _, g := range rigs {
+			if g != nil {
+				dataEOF.Add(g.under.dataEOF.Load())
+			}
+		}
+		r.AddStates(states.Load())
+		r.AddTransitions(trans.Load())
+		r.AddTraces(traces.Load())
+		r.Add("transitions_with_shaped_underlying_readers", shaped.Load())
+		r.Add("transitions_opening_no_underlying_reader", indep.Load())
+		r.Add("underlying_reads_returning_data_with_eof", dataEOF.Load())
 	})
 }
